@@ -873,13 +873,18 @@ package client
 //@   local key string#1,2
 //@   requires m != nil && m.clientStates != nil && m.clientUpSub != nil && busAcyclic(m.nc)
 //@   requires forall k string :: has(m.clientStates, k) ==> m.clientStates[k] != nil
-//@   modifies m, m.clientStates, m.clientUpSub, state(m.nc), state(client.Client), state(client.verifGhost)
+//@   modifies m, m.clientStates, m.clientUpSub, state(m.nc), state(client.Client), state(client.verifGhost), state(client.verifGhost2)
 //@   havoc state(client.verifGhost) at "m.upSub.Unsubscribe()"
 //@   assume stop-requests-marked: forall c Client :: stopMark(verifG, c) == stopReqs(c) at "m.upSub.Unsubscribe()"
 //@   assert [C07] stop-asks-every-client-to-stop: forall k string :: has(m.clientStates, k) ==> stopReqs(m.clientStates[k].client) > stopMark(verifG, m.clientStates[k].client) at "shutdownTimer.Reset(time.Second * 5)"
+//@   havoc state(client.verifGhost2) at "GetNodes(m.nc, \"root\", \"all\", \"\", false)"
+//@   assume guard-ghost-reset: !guardFired(verifG2) at "GetNodes(m.nc, \"root\", \"all\", \"\", false)"
+//@   havoc state(client.verifGhost2) at "log.Println(\"BUG: Client manager: not all clients shutdown for node type:\", m.nodeType)"
+//@   assume guard-noted: guardFired(verifG2) at "log.Println(\"BUG: Client manager: not all clients shutdown for node type:\", m.nodeType)"
+//@   assert [C07] run-returns-only-when-every-client-state-is-gone-or-the-guard-fired: (forall k string :: !has(m.clientStates, k)) || guardFired(verifG2) at "return nil"
 //@   assert [C07] stopped-client-forgotten-before-the-rescan: !has(m.clientStates, key) && !has(m.clientUpSub, key) at "scan()" #3
 //@   loop 1:
-//@     invariant m.clientStates != nil && m.clientUpSub != nil && busAcyclic(m.nc)
+//@     invariant m.clientStates != nil && m.clientUpSub != nil && busAcyclic(m.nc) && !guardFired(verifG2)
 //@     invariant forall k string :: has(m.clientStates, k) ==> m.clientStates[k] != nil
 //@     modifies m.clientStates, m.clientUpSub, state(m.nc), state(client.Client), state(client.verifGhost)
 //@   loop 2:
@@ -900,6 +905,7 @@ package client
 // faults and message timings (the real-time forwarding goroutines, NATS delivery, the store on each side).
 //@ model func upSent(g *verifGhost, a int) bool
 //@ model func downSent(g *verifGhost, j int) bool
+//@ model func guardFired(g *verifGhost2) bool
 //@ model func eUpSent(g *verifGhost2, a int) bool
 //@ model func eDownSent(g *verifGhost2, j int) bool
 //@ model func eProcBy(g *verifGhost2, j int) int
@@ -1009,6 +1015,7 @@ package client
 //@   assert [C02] the-root-edge-is-not-synced: nodeLocal.ID == up.rootLocal.ID ==> (forall k int :: !eUpSent(verifG2, k) && !eDownSent(verifG2, k)) at "GetNodes(up.ncLocal, nodeLocal.ID, \"all\", \"\", false)"
 //@   assert [C02] a-node-is-transferred-up-only-if-upstream-has-no-copy: len(nodeUps) == 0 at "up.sendNodesRemote(nodeLocal)"
 //@   assert [C02] undelete-upstream-only-if-every-upstream-copy-is-deleted: len(nodeUps) > 0 && (forall k int :: 0 <= k && k < len(nodeUps) ==> isTomb(nodeUps[k])) && nodeUp == nodeUps[0] && pTS.Type == "tombstone" && pTS.Value == 0.0 at "SendEdgePoint(up.ncRemote, nodeUp.ID, nodeUp.Parent, pTS, true)"
+//@   assert [C02] edge-points-are-backed-out-of-the-compared-hashes-for-the-instance-root-only: nodeLocal.ID == up.rootLocal.ID at "p.CRC()"
 //@   assert [C02] recursion-only-into-a-child-both-sides-have-with-different-hashes: child.ID == upChild.ID && child.Hash != upChild.Hash && child == children[rangeindex10] && upChild == upChildren[rangeindex11] at "up.syncNode(nodeLocal.ID, child.ID)"
 //@   assert [C02] a-child-goes-up-only-if-upstream-has-none-with-its-id: child == children[rangeindex10] && (forall j int :: 0 <= j && j < len(upChildren) ==> upChildren[j].ID != child.ID) at "up.sendNodesRemote(child)"
 //@   assert [C02] a-child-comes-down-only-if-no-local-child-has-its-id: upChild == upChildren[rangeindex12] && (forall a int :: 0 <= a && a < len(children) ==> children[a].ID != upChild.ID) at "up.sendNodesLocal(upChild)"
@@ -1021,11 +1028,11 @@ package client
 //@     decreases len(nodeUps) - rangeindex
 //@   loop 2:
 //@     invariant -1 <= rangeindex && rangeindex < len(nodeUp.EdgePoints) || rangeindex == -1
-//@     invariant sameSlice(nodeUp.EdgePoints, preloop(nodeUp.EdgePoints))
+//@     invariant sameSlice(nodeUp.EdgePoints, preloop(nodeUp.EdgePoints)) && nodeLocal.ID == up.rootLocal.ID
 //@     decreases len(nodeUp.EdgePoints) - rangeindex
 //@   loop 3:
 //@     invariant -1 <= rangeindex && rangeindex < len(nodeLocal.EdgePoints) || rangeindex == -1
-//@     invariant sameSlice(nodeLocal.EdgePoints, preloop(nodeLocal.EdgePoints))
+//@     invariant sameSlice(nodeLocal.EdgePoints, preloop(nodeLocal.EdgePoints)) && nodeLocal.ID == up.rootLocal.ID
 //@     decreases len(nodeLocal.EdgePoints) - rangeindex
 //@   loop 4:
 //@     merge
@@ -1107,7 +1114,7 @@ package client
 //@     invariant -1 <= rangeindex && rangeindex < len(upChildren) || rangeindex == -1
 //@     invariant upChildProcessed != nil && allocd(upChildProcessed)
 //@     invariant 0 <= rangeindex10 && rangeindex10 < len(children) && child == children[rangeindex10]
-//@     invariant [C02] !found ==> (forall j int :: 0 <= j && j <= rangeindex ==> child.ID != upChildren[j].ID)
+//@     invariant [C02] found <==> (exists j int :: 0 <= j && j <= rangeindex && child.ID == upChildren[j].ID)
 //@     invariant [C02] forall a int, j int :: 0 <= a && a <= rangeindex10 && 0 <= j && j < len(upChildren) && (a < rangeindex10 || j <= rangeindex) && children[a].ID == upChildren[j].ID ==> has(upChildProcessed, j)
 //@     modifies upChildProcessed, state(up.nc), state(client.verifGhost), state(client.verifGhost2), &up.rootRemote, &up.subRemoteUp, &up.config.SyncCount
 //@     decreases len(upChildren) - rangeindex
